@@ -1,6 +1,6 @@
 (** C01: the generated parser recognises exactly the grammar's PEG language. *)
 From PegV Require Import Base.Tac Spec.Syntax Spec.Peg Spec.WF Model.Machine Model.Gen Model.Analyses Model.Emit Model.SEmit Model.Exec
-  Proofs.Top Proofs.SEmitSound Proofs.SEmitFile Properties.Example Generated.PegPeg.
+  Proofs.Top Proofs.EmitUse Proofs.SEmitSound Proofs.SEmitFile Proofs.DeepDefault Properties.Example Generated.PegPeg.
 From Coq Require Import Lia.
 Local Open Scope nat_scope.
 
@@ -104,6 +104,38 @@ Theorem C01_generated_code_every_execution :
       end.
 Proof. exact generated_code_every_execution. Qed.
 Print Assumptions C01_generated_code_every_execution.
+
+(** With the default options (-inline off) the side condition is a theorem (Proofs/CountReach.v: the rules countRules
+    marks are closed under the names in their bodies and its fuel suffices; Proofs/DeepDefault.v), and the first rule
+    is always marked: for every grammar whose names all stand for a rule or an action and whose choices have two
+    alternatives or more (what the front end builds), every input, memo setting and earlier parser state, every
+    execution of the first rule's function of the generated file returns what the PEG semantics says. *)
+Theorem C01_generated_code_is_peg_default :
+  forall g ptx buf penv, good_grammar g -> good_buf buf -> good_switches g -> grammar_alt2 g -> closed_names g ->
+  forall memo n st0 rr, peg_parse g ptx buf penv (S n) 0 = Some rr ->
+  forall res, xcall buf penv (mk_opts true memo false g) (gen_fn g ptx false) 0 (reset st0) res ->
+    match rr with
+    | (Succ p f, _) => exists st', res = Ret true st' /\ pos st' = p /\ live st' = Syntax.flat f
+    | (Fail, evs) => exists st', res = Ret false st' /\ maxtok st' = first_furthest evs
+    end.
+Proof. exact generated_code_default_start. Qed.
+Print Assumptions C01_generated_code_is_peg_default.
+(** ... and from any other rule countRules marks *)
+Theorem C01_generated_code_is_peg_default_any_rule :
+  forall g ptx buf penv, good_grammar g -> good_buf buf -> good_switches g -> grammar_alt2 g -> closed_names g ->
+  forall memo n r st0 rr, reached (count_rules g) r = true -> peg_parse g ptx buf penv (S n) r = Some rr ->
+  forall res, xcall buf penv (mk_opts true memo false g) (gen_fn g ptx false) r (reset st0) res ->
+    match rr with
+    | (Succ p f, _) => exists st', res = Ret true st' /\ pos st' = p /\ live st' = Syntax.flat f
+    | (Fail, evs) => exists st', res = Ret false st' /\ maxtok st' = first_furthest evs
+    end.
+Proof. exact generated_code_default. Qed.
+Print Assumptions C01_generated_code_is_peg_default_any_rule.
+Example C01_default_nonvacuous : grammar_alt2 ex_g /\ closed_names ex_g /\ grammar_alt2 pegpeg_d /\ closed_names pegpeg_d.
+Proof.
+  split; [apply grammar_alt2_b_ok; vm_compute; reflexivity|]. split; [apply closed_names_b_ok; vm_compute; reflexivity|].
+  split; [apply grammar_alt2_b_ok; vm_compute; reflexivity|apply closed_names_b_ok; vm_compute; reflexivity].
+Qed.
 
 (** the bridge for the other properties: what the entry's function of the generated file returns IS what the machine
     returns (and is never a crash), so every theorem about [machine .. = Some (Ret b st')] - the tokens (C03), Execute's
